@@ -669,14 +669,21 @@ def check_reset_before_parse(ck, ctx, key, why, rule="T-DOM"):
     on every line class in every reachable state of the line machine (also as last line of the script); whenever a statement is
     handed to the grammar the lexer flags must be the reset vector - however the reset and the parse call are arranged in the code"""
     lm = LineMachine(ctx)
-    states = reachable_states(lm)
+    start = dict(ctx.lexer.start_flags)
     n, bad = 0, None
-    for s, path in states:
+
+    def clean(lx):
+        return all(same(lx.get(k), v) for k, v in start.items())
+    s0, l0 = lm.initial(), lm.lexer_after_prologue()
+    seen = {(ident1(s0), clean(l0))}
+    queue = collections.deque([(s0, l0, [])])
+    while queue:
+        s, lex, path = queue.popleft()
         shape = stmt_class(s["statement"])
         for cname in ALLOWED[shape]:
             for more in (True, False):
                 try:
-                    snaps, start = lm.lexer_flags_at_parse(s, CODE[cname], more)
+                    snaps, _start = lm.lexer_flags_at_parse(s, CODE[cname], more, lexer_in=lex)
                 except (PyRaise, Raised) as e:
                     raise AnalysisError(f"{rule}: the line machine raises on `{cname}`: {e}")
                 for sn in snaps:
@@ -685,6 +692,16 @@ def check_reset_before_parse(ck, ctx, key, why, rule="T-DOM"):
                     if wrong and bad is None:
                         bad = (f"when the statement assembled after {' / '.join(path[-3:] + [cname])} is handed to the grammar, the lexer flags "
                                f"{sorted(wrong)} still hold what the previous statement left")
+                if more:
+                    lex2 = dict(lm.last_lexer_after or {})
+                    try:
+                        _p, nxt = lm.step(s, CODE[cname], True)
+                    except (PyRaise, Raised):
+                        continue
+                    idk = (ident1(nxt), clean(lex2))
+                    if idk not in seen and len(seen) < 200:
+                        seen.add(idk)
+                        queue.append((nxt, lex2, path + [cname]))
     if n < 10:
         raise AnalysisError(f"{rule}: only {n} statements were handed to the grammar by the explored lines (anchor vanished?)")
     ck.ob(rule, key, bad is None, why + ("" if bad is None else "; " + bad), "Parser.process_line (evaluated abstractly, reset not intercepted)")
@@ -820,3 +837,98 @@ def check_names(ck, ctx, rule="O-name"):
               ("" if ok else f"; in {len(fails)} of {len(NAME_SCRIPTS)} positions ({', '.join(f[0] for f in fails)}): {fails[0][2]}"),
               "Parser.parse_data (evaluated abstractly) + lexer rules in PLY's order", witness=None if ok else repr(fails[0][1])[:160])
     ck.count("name_instances", n)
+
+
+# ---- silent mode at the statement level (C16) -----------------------------------------------------------------------------
+def check_silent(ck, ctx, rule="O-silent"):
+    """Parser.process_line -> process_statement -> parse_statement evaluated abstractly with the LALR call stubbed: when the error
+    hooks raise DDLParserError, silent=True swallows it, reports nothing and leaves the line machine ready for the next statement
+    (which is then handed over intact); silent=False lets exactly that exception escape; a recognised statement is reported once in
+    both settings; an unrecognised one (no result) is reported in neither"""
+    lm = LineMachine(ctx)
+    s0 = lm.initial()
+    first = ["CREATE TABLE t  ( ", "a int , ", "b int", " ) ;"]
+    nxt = "CREATE TABLE u  ( x int )  ;"
+    exc_mod = ctx.model.modules.get("simple_ddl_parser.exception")
+    for silent in (True, False):
+        for outcome in ("ok", "none", "raise"):
+            st, handed, escaped = s0, [], None
+            lex = lm.lexer_after_prologue()
+            try:
+                for i, ln in enumerate(first):
+                    p, st, escaped = lm.step_parse(st, ln, True, outcome, silent, lexer_in=lex)
+                    lex = dict(lm.last_lexer_obj.__dict__)
+                    handed += list(p)
+                    if escaped is not None:
+                        break
+                problem = None
+                text = "CREATE TABLE t ( a int , b int )"
+                if outcome == "raise" and not silent:
+                    if escaped is None:
+                        problem = "the error is swallowed although silent=False"
+                    else:
+                        it = lm.ctx.model
+                        key = None
+                        r = it.resolve_symbol(escaped.module, escaped.cls_name) if escaped.module is not None else None
+                        mro = [k[1] for k in it.mro(r[1])] if r and r[0] == "class" else [escaped.cls_name]
+                        if "SimpleDDLParserException" not in mro and "DDLParserError" not in mro:
+                            problem = f"{escaped.cls_name} escapes instead of DDLParserError"
+                else:
+                    if escaped is not None:
+                        problem = f"{escaped.cls_name} escapes" + (" although silent=True" if outcome == "raise" else " although the statement parses")
+                    elif [" ".join(h.split()) for h in handed] != [text]:
+                        problem = f"the statement is handed to the grammar as {handed!r}"
+                    else:
+                        want = 1 if outcome == "ok" else 0
+                        if len(st["tables"]) != want:
+                            problem = f"{len(st['tables'])} entities reported, expected {want}"
+                        elif st["statement"] is not None:
+                            problem = f"the statement register still holds {st['statement']!r}"
+                        else:
+                            # the next statement starts from a clean machine
+                            p2, st2, esc2 = lm.step_parse(st, nxt, True, "ok", silent, lexer_in=lex)
+                            start = dict(ctx.lexer.start_flags)
+                            dirty = [k for sn in lm.last_lexer_at_parse for k in start if not same(sn.get(k), start[k])]
+                            if dirty:
+                                problem = f"the following statement is parsed with lexer flags left by this one ({sorted(set(dirty))[:4]})"
+                            elif esc2 is not None or [" ".join(h.split()) for h in p2] != ["CREATE TABLE u ( x int )"] or len(st2["tables"]) != want + 1:
+                                problem = f"the following statement is handed over as {p2!r} ({len(st2['tables'])} entities)"
+            except (PyRaise,) as e:
+                problem = f"raises {e}"
+            what = {"ok": "a statement the grammar recognises", "none": "a statement that yields no result", "raise": "a statement on which the error hooks raise"}[outcome]
+            ck.ob(rule, f"{what}, silent={silent}", problem is None,
+                  "silent=True: no exception, no entity, the next statement unaffected; silent=False: DDLParserError escapes; a recognised "
+                  "statement is reported once either way" + ("" if problem is None else "; " + problem), "Parser.process_line / parse_statement (evaluated abstractly)")
+
+
+def check_error_hooks(ck, ctx, rule="O-silent"):
+    """the PLY error hooks evaluated abstractly: p_error (called with a token, or with None at the end of the input) raises a
+    DDLParserError exactly when silent is off; t_error raises a DDLParserError (the statement driver decides what silent does
+    with it - see above); neither raises anything else"""
+    from ..pyabs import Interp, Obj
+    m = ctx.model
+
+    def family(r):
+        rs = m.resolve_symbol(r.module, r.cls_name) if r.module is not None else None
+        names = [k[1] for k in m.mro(rs[1])] if rs and rs[0] == "class" else [r.cls_name]
+        return "SimpleDDLParserException" in names or "DDLParserError" in names
+
+    def call(fname, arg, silent):
+        it = Interp(m, ctx.grammar.tokens_ns, Obj(), self_attrs={"silent": silent, "statement": "CREATE TABLE t ( a int ~ )"})
+        try:
+            it.call_func(m.parser_method(fname), [arg])
+            return "returns", None
+        except Raised as r:
+            return ("raises DDLParserError" if family(r) else f"raises {r.cls_name}"), r
+        except PyRaise as pr:
+            return f"raises {type(pr.exc).__name__}: {pr.exc}", pr
+    tok = Obj(type="ID", value="foo", lineno=1, lexpos=14)
+    sym = Obj(type="error", value="~ )", lineno=1, lexpos=23, lexer=Obj(lexpos=23, lexdata="CREATE TABLE t ( a int ~ )"))
+    cases = [("p_error(<token>)", "p_error", tok, {True: "returns", False: "raises DDLParserError"}),
+             ("p_error(None) - the input ends too early", "p_error", None, {True: "returns", False: "raises DDLParserError"}),
+             ("t_error(<unknown symbol>)", "t_error", sym, {True: "raises DDLParserError", False: "raises DDLParserError"})]
+    for label, fname, arg, want in cases:
+        for silent in (True, False):
+            got, _e = call(fname, arg, silent)
+            ck.ob(rule, f"{label}, silent={silent}", got == want[silent], f"expected: {want[silent]}; the hook {got}",
+                  f"DDLParser.{fname} (evaluated abstractly)")
